@@ -151,6 +151,19 @@ def judge(want: dict[str, list[set[str]]] | None, got: Any) -> str | None:
     return None
 
 
+def profile_twins(r: Any, labels: Any) -> tuple[Any, Any]:
+    """two different shapes with the same counts of (level, parent type, child type): the same type twice under one
+    parent with the grandchildren distributed differently — R[X[b], X[c]] / R[X[b, c], X[]], or
+    R[X[p, p], X[q, q]] / R[X[p, q], X[q, p]]"""
+    R, X, b, c = (r.choice(labels) for _ in range(4))
+    if r.random() < 0.5:
+        if b == c:
+            return ([None, 0, 0, 1, 2], (R, X, X, b, c)), ([None, 0, 0, 1, 1], (R, X, X, b, c))
+        return ([None, 0, 0, 1, 2], (R, X, X, b, c)), ([None, 0, 0, 1, 1], (R, X, X, b, c))
+    p, q = (labels[0], labels[1]) if b == c else (b, c)
+    return (([None, 0, 0, 1, 1, 2, 2], (R, X, X, p, p, q, q)), ([None, 0, 0, 1, 1, 2, 2], (R, X, X, p, q, q, p)))
+
+
 def gen_case(ctx: Ctx, small: list[Any]) -> dict[str, Any]:
     r = ctx.rng
     labels = r.choice(["AB", "AB", "ABC"])
@@ -159,9 +172,16 @@ def gen_case(ctx: Ctx, small: list[Any]) -> dict[str, Any]:
     traces = []
     n_tr = r.choice([2, 4, 6, 10, 16])
     base: list[Any] = []
+    pending: list[Any] = []
     for t in range(n_tr):
-        kind = r.choice(["small", "small", "random", "twin", "twin", "same"])
-        if kind == "small" or not base:
+        kind = r.choice(["small", "small", "random", "twin", "twin", "same", "ptwin"])
+        if pending:
+            tr = pending.pop()      # the second of a pair of profile twins, next to the first
+            kind = "ptwin"
+        elif kind == "ptwin":
+            tr, other = profile_twins(r, labels)
+            pending.append(other)
+        elif kind == "small" or not base:
             tr = r.choice(small)
         elif kind == "random":
             tr = random_tree(r, labels)
